@@ -90,6 +90,13 @@ func VerifC18_BeginBlock() {
 	if verifChoice("emptyAppHash", 2) == 1 {
 		hdr.AppHash = nil // e.g. the first block after genesis
 	}
+	// ... or a concrete block time at which alice's number ends in the digit 0 (one draw in ten does): the
+	// stored text still has its 20 fractional digits
+	endsInZero := verifChoice("numberEndsInZero", 2) == 1
+	if endsInZero {
+		now = c18TimeEndingInZero(hdr.AppHash, alice)
+		hdr.Time = time.Unix(now, 0)
+	}
 	ctx := e.ctx.WithBlockHeader(hdr).WithHeaderHash([]byte("hash-of-the-fulfilling-block"))
 	// nothing happens before the due block
 	early := ctx.WithBlockHeight(due)
@@ -115,6 +122,9 @@ func VerifC18_BeginBlock() {
 	expA := types.MakePRNG(hdr.AppHash, now, alice, nil, false).GetRand().FloatString(types.RandPrec)
 	expB := types.MakePRNG(hdr.AppHash, now, bob, nil, false).GetRand().FloatString(types.RandPrec)
 	verifAssert(ra.Value == expA && rb.Value == expB, "each request's number is derived from the block and from its own requester")
+	if endsInZero {
+		verifAssert(len(ra.Value) == 2+types.RandPrec && ra.Value[:2] == "0." && ra.Value[len(ra.Value)-1] == '0', "the number is stored with its 20 fractional digits, trailing zeros included")
+	}
 	verifAssert(ec != nil && st.Has(types.KeyRandomRequestQueue(due+1, idC)), "requests due later are untouched")
 	verifAssert(!st.Has(types.KeyRandomRequestQueue(due, idA)) && !st.Has(types.KeyRandomRequestQueue(due, idB)) && !st.Has(types.KeyRandomRequestQueue(due, idO)), "fulfilled requests leave the pending queue")
 	verifAssert(ra.Height == due && rb.Height == due && ra.RequestTxHash == reqA.TxHash && rb.RequestTxHash == reqB.TxHash, "result is stored under the request's id with its tx hash")
@@ -227,8 +237,26 @@ func VerifC18_OracleResponse() {
 	if verifChoice("emptyAppHash", 2) == 1 {
 		hdr2.AppHash = nil
 	}
-	ctx := e.ctx.WithBlockHeader(hdr2).WithHeaderHash([]byte("hash-of-the-block"))
 	seedHex := []string{"00000000000000000000000000000000000000000000000000000000000000aa", "ffeeddccbbaa99887766554433221100ffeeddccbbaa99887766554433221100"}[verifChoice("seed", 2)]
+	endsInZero := verifChoice("numberEndsInZero", 2) == 1
+	if endsInZero {
+		// a concrete block time at which the seeded number ends in the digit 0
+		sd := make([]byte, 32)
+		for i := 0; i < 32; i++ {
+			sd[i] = c18hex(seedHex[2*i])<<4 | c18hex(seedHex[2*i+1])
+		}
+		now = 0
+		for t := int64(1700000000); t < 1700000400 && now == 0; t++ {
+			if v := types.MakePRNG(hdr2.AppHash, t, alice, sd, true).GetRand().FloatString(types.RandPrec); v[len(v)-1] == '0' {
+				now = t
+			}
+		}
+		if now == 0 {
+			verifFail("no block time with a number ending in 0 found")
+		}
+		hdr2.Time = time.Unix(now, 0)
+	}
+	ctx := e.ctx.WithBlockHeader(hdr2).WithHeaderHash([]byte("hash-of-the-block"))
 	good := `{"header":{},"body":{"seed":"` + seedHex + `"}}`
 	other := `{"header":{},"body":{"seed":"1111111111111111111111111111111111111111111111111111111111111111"}}`
 	outcome := verifChoice("outcome", 5)
@@ -264,6 +292,9 @@ func VerifC18_OracleResponse() {
 		exp := types.MakePRNG(hdr2.AppHash, now, alice, seed, true).GetRand().FloatString(types.RandPrec)
 		verifAssert(rnd.Value == exp, "the number is derived from the block's app hash and time, the requester and the oracle seed")
 		verifAssert(rnd.Height == due+2 && rnd.RequestTxHash == req.TxHash, "the result is stored under the request's id with its tx hash")
+		if endsInZero {
+			verifAssert(len(rnd.Value) == 2+types.RandPrec && rnd.Value[:2] == "0." && rnd.Value[len(rnd.Value)-1] == '0', "the number is stored with its 20 fractional digits, trailing zeros included")
+		}
 	} else {
 		verifCover("dropped")
 		verifAssert(er != nil, "a failed, timed-out or abandoned service call yields no number")
@@ -296,4 +327,16 @@ func c18EdgeRequester(height int64, first byte) sdk.AccAddress {
 	}
 	verifFail("no requester with the wanted id prefix found")
 	return nil
+}
+
+// c18TimeEndingInZero searches (concretely) for a block time at which the requester's number ends in the digit 0.
+func c18TimeEndingInZero(appHash []byte, who sdk.AccAddress) int64 {
+	for t := int64(1700000000); t < 1700000400; t++ {
+		v := types.MakePRNG(appHash, t, who, nil, false).GetRand().FloatString(types.RandPrec)
+		if v[len(v)-1] == '0' {
+			return t
+		}
+	}
+	verifFail("no block time with a number ending in 0 found")
+	return 0
 }
